@@ -1,6 +1,7 @@
 //! vprop — property-based checks for the 20 ast-grep properties in /verif/properties.jsonl.
 pub mod cli;
 pub mod engine;
+pub mod fuzz;
 pub mod gen;
 pub mod langs;
 pub mod tsutil;
